@@ -129,9 +129,14 @@ func NewPocketCoreApp(genState GenesisState, keybase keys.Keybase, tmClient clie
 		cmn.Exit(err.Error())
 	}
 	ctx := sdk.NewContext(app.Store(), abci.Header{}, false, app.Logger()).WithBlockStore(app.BlockStore())
-	if upgrade := app.govKeeper.GetUpgrade(ctx); upgrade.Height != 0 {
+	upgrade := app.govKeeper.GetUpgrade(ctx)
+	if upgrade.Height != 0 {
 		codec.UpgradeHeight = upgrade.Height
 		codec.OldUpgradeHeight = upgrade.OldUpgradeHeight
+	}
+	// A feature-only upgrade keeps the stored upgrade height; when that height is still 0 the stored
+	// features must be restored all the same, or a restarted node loses the activation schedule.
+	if upgrade.Height != 0 || len(upgrade.GetFeatures()) > 0 {
 		codec.UpgradeFeatureMap = codec.SliceToExistingMap(upgrade.GetFeatures(), codec.UpgradeFeatureMap)
 	}
 	return app
